@@ -1,6 +1,7 @@
 //! E4: reference models written from the RFCs / property statements.
 
 pub mod c20_core;
+pub mod dtls_hs;
 pub mod rtpwire;
 pub mod srtp;
 pub mod stunwire;
